@@ -36,6 +36,7 @@ MODULES = [
     "siblings",
     "lockstep",
     "sparsefmt",
+    "counts",
 ]
 
 
